@@ -156,6 +156,33 @@ def run(facts, cg):
                         finding('R-OFFSETS', b.q, 'inferred', 'absolute chunk offset is inferred from lengths / running state (%s) instead of the header field' % (bad or 'accumulator'))
     if n < 1:
         finding('R-OFFSETS', '-', 'floor', 'no construction of archive::ChunkDescriptor found (cannot decide)')
+    # the format places no order on the stored chunks: opening an archive never compares one descriptor's place in the file
+    # with a value carried over from the descriptors before it (a running "end of the previous chunk")
+    ADESC = 'bitar::archive::ChunkDescriptor'
+    for b in facts.bodies.values():
+        if b.generated or not b.id.startswith('bitar::archive::') or 'try_init' not in b.id:
+            continue
+        for bi in b.live:
+            for st in b.blocks[bi]['stmts']:
+                if st['k'] != 'assign' or st['rv']['k'] != 'binop' or st['rv']['op'] not in ('Lt', 'Le', 'Gt', 'Ge'):
+                    continue
+                ta = simplify(T.of_operand(b, st['rv']['a']))
+                tb = simplify(T.of_operand(b, st['rv']['b']))
+                for x, y in ((ta, tb), (tb, ta)):
+                    own = isinstance(x, tuple) and x[0] == 'field' and x[2] in ('archive_offset',) or has_call(x, 'archive_end_offset')
+                    carried = False
+                    for n_ in walk(y):
+                        if n_[0] != 'var':
+                            continue
+                        for l_, lc in enumerate(b.locals):
+                            if lc.get('name') == n_[-1] and len(b.defs().get(l_, [])) > 1:
+                                for d_ in b.defs()[l_]:
+                                    dt = simplify(T.of_rvalue(b, d_[1]['rv'], 0)) if d_[0] == 'assign' else simplify(T.of_call(b, d_[1], 0)) if d_[0] == 'call' else None
+                                    if dt is not None and (has_call(dt, 'archive_end_offset') or has_field(dt, 'archive_offset') or has_field(dt, 'archive_size')):
+                                        carried = True
+                    if own and carried:
+                        finding('R-OFFSETS', b.q, 'order-assumed', 'opening an archive compares a descriptor\'s place in the file with a value carried over from the descriptors '
+                                'before it (%s): archives whose chunk data is not stored in dictionary order - which the format allows - are refused' % st['loc'])
     # the fetch list is built from descriptor offset/size only
     for (b, bi, t) in cg.calls_to('bitar::chunk_offset::ChunkOffset::new'):
         if not b.q.startswith('bitar::archive::'):
